@@ -134,18 +134,6 @@ func c17Run(rootMap map[string]Val, rootData Val, ops []c17Op, objs []map[string
 				xs = append(xs, FromGo(v).Obs())
 				return nil
 			})
-			if cv, ok := s.Resolve(o.key); ok && cv != nil && strings.HasPrefix(FromGo(cv).K, "map") {
-				// map iteration order is unspecified: observe the sorted multiset of printed values
-				shown := []string{}
-				for _, x := range xs {
-					shown = append(shown, x.Show())
-				}
-				sort.Strings(shown)
-				xs = []Obs{A("unordered")}
-				for _, sh := range shown {
-					xs = append(xs, A(sh))
-				}
-			}
 			res = append(res, L(xs...))
 		case "getstring":
 			v, ok := s.GetString(o.key)
